@@ -31,6 +31,7 @@ UDFS = {
     "inc": lambda x: x + 1,
     "dbl": lambda x: 2 * x,
     "itonly": lambda x: x - 1,   # registered with supporting_engine_types=(iteration.Engine,)
+    "only2": lambda x: x + 2,    # registered in engine "it2" only (no supporting_engine_types restriction)
 }
 
 
